@@ -412,11 +412,68 @@ def check_C08(ck):
                  {"graphs": n, "presentations_per_graph": len(gen.STYLES), "groups_with_differing_observables": differing})
 
 
+def c17_expectations(scripts, impl_out):
+    """per script and method: the flags the specification implies, from the oracle's verdict on every
+    class tuple (only for methods whose tuples are all called). Returns first mismatch or None."""
+    plain = strip_dump(scripts)
+    orc = verif.run_model(verif.inject_rng(plain, impl_out), mode="--oracle")
+    compared = 0
+    for name, lines in plain:
+        o = orc.get(name, [])
+        ops = [l for l in lines if l.split()[0] in ("update", "call", "callnext", "callfinal", "vcall", "vnew", "vfinal", "vcopy", "vmove")]
+        if len(ops) != len(o):
+            continue
+        abstract, full = {}, set()
+        for l in lines:
+            t = l.split()
+            if t[0] == "class":
+                abstract.setdefault(int(t[2]), t[3] != "0")
+            if t[0] == "#full":
+                full.add(int(t[1]))
+        exp = {}
+        for op, res in zip(ops, o):
+            t = op.split()
+            if t[0] != "call" or int(t[1]) not in full:
+                continue
+            e = exp.setdefault(int(t[1]), [False, False, False, False])
+            conc = not any(abstract.get(int(x), False) for x in t[2:])
+            if "status=ni" in res:
+                e[0] = True
+                e[1] = e[1] or conc
+            elif "status=amb" in res:
+                e[2] = True
+                e[3] = e[3] or conc
+        _, methods = parse_dump(impl_out.get(name, []))
+        for m in methods:
+            if m["key"] in exp and len(m["report"]) == 6:
+                compared += 1
+                got = [m["report"][2] != 0, m["report"][3] != 0, m["report"][4] != 0, m["report"][5] != 0]
+                if got != exp[m["key"]]:
+                    return compared, (name, dict(scripts)[name], {
+                        "kind": "failing input: the update report disagrees with what the registry implies",
+                        "method": m["key"], "flags": ["not_implemented", "concrete_not_implemented", "ambiguous", "concrete_ambiguous"],
+                        "reported": got, "implied_by_all_class_tuples": exp[m["key"]]})
+    return compared, None
+
+
 def check_C17(ck):
-    r = check_dispatch_family(ck, 1000, 15000, "C17: per-method and aggregated update report", emphasis="abstract")
-    scripts, gscripts, stats, impl_out, model_out, crashes = r
+    n = tier_n(ck, 1000, 15000)
+    scripts = load_corpus("C17") + load_corpus("dispatch")
+    gscripts, stats = gen_dispatch_scripts(ck, n, emphasis="abstract", callnext=False)
+    scripts += gscripts
+    state = {"compared": 0}
+
+    def c17_oracle(bad, by_name, impl_out):
+        k, f = c17_expectations(scripts, impl_out)
+        state["compared"] = k
+        return f
+    impl_out, model_out, nbad = correspondence(ck, scripts, "C17: per-method and aggregated update report", oracle=False, extra_oracle=c17_oracle)
+    k, f = c17_expectations(scripts, impl_out)
+    if f and not ck.violations:
+        f[2].update(property="C17", script=f[1])
+        ck.violation(verif.write_replay("C17", f[0], f[2]), True)
     std_evidence(ck, ["C17"], scripts, gscripts, stats, impl_out,
-                 {"reports_compared": count_lines(impl_out, "report ")})
+                 {"reports_compared_with_model": count_lines(impl_out, "report "), "method_reports_compared_with_specification": k})
 
 
 def check_C02(ck):
